@@ -693,6 +693,7 @@ pub fn preprocess_str<T: AsRef<Path>, U: AsRef<Path>, V: BuildHasher>(
                             path.as_ref(),
                             &defines,
                             include_paths,
+                            ignore_include,
                             strip_comments,
                             resolve_depth + 1,
                             include_depth,
@@ -753,6 +754,7 @@ pub fn preprocess_str<T: AsRef<Path>, U: AsRef<Path>, V: BuildHasher>(
                     path.as_ref(),
                     &defines,
                     include_paths,
+                    ignore_include,
                     strip_comments,
                     resolve_depth + 1,
                     include_depth,
@@ -978,6 +980,7 @@ fn resolve_text_macro_usage<T: AsRef<Path>, U: AsRef<Path>>(
     path: T,
     defines: &Defines,
     include_paths: &[U],
+    ignore_include: bool,
     strip_comments: bool,
     resolve_depth: usize,
     include_depth: usize,
@@ -1075,7 +1078,7 @@ fn resolve_text_macro_usage<T: AsRef<Path>, U: AsRef<Path>>(
                 path.as_ref(),
                 &defines,
                 include_paths,
-                false,
+                ignore_include,
                 strip_comments,
                 resolve_depth,
                 include_depth,
@@ -1089,14 +1092,14 @@ fn resolve_text_macro_usage<T: AsRef<Path>, U: AsRef<Path>>(
             // A macro without body expands to nothing, but a parenthesised group after
             // a macro without arguments is not an argument list: it is text and stays.
             resolve_trailing_paren(
-                paren, args_offset, path, defines, include_paths, strip_comments,
+                paren, args_offset, path, defines, include_paths, ignore_include, strip_comments,
                 resolve_depth, include_depth,
             )
         }
     } else if define.is_some() {
         // a name supplied without definition has no arguments either
         resolve_trailing_paren(
-            Some(args_str), args_offset, path, defines, include_paths, strip_comments,
+            Some(args_str), args_offset, path, defines, include_paths, ignore_include, strip_comments,
             resolve_depth, include_depth,
         )
     } else {
@@ -1110,6 +1113,7 @@ fn resolve_trailing_paren<T: AsRef<Path>, U: AsRef<Path>>(
     path: T,
     defines: &Defines,
     include_paths: &[U],
+    ignore_include: bool,
     strip_comments: bool,
     resolve_depth: usize,
     include_depth: usize,
@@ -1121,7 +1125,7 @@ fn resolve_trailing_paren<T: AsRef<Path>, U: AsRef<Path>>(
                 path.as_ref(),
                 &defines,
                 include_paths,
-                false,
+                ignore_include,
                 strip_comments,
                 resolve_depth,
                 include_depth,
